@@ -616,12 +616,17 @@ def array_decl(draw, ctx, symbolic=None, name=None, max_rows=4, max_cols=5):
               depth=min(ctx.depth, 1))
     rows = []
     any_param = False
+    bare_vars = list(ctx.ints) + ([] if vtype == "int" else list(ctx.floats)) + (list(ctx.complexes) if vtype == "complex" else [])
     for i in range(r):
         row = []
         for j in range(c):
             if sym and draw(st.integers(0, 2)) == 0:
                 row.append(F1(A.Param(draw(st.sampled_from(ctx.params)))))
                 any_param = True
+            elif bare_vars and draw(st.integers(0, 4)) == 0:
+                # a declared scalar written as a bare element (names such as j, inf, e are the interesting ones)
+                risky = [v for v in bare_vars if v in _RISKY_NAMES]
+                row.append(F1(A.Var(draw(st.sampled_from(risky if (risky and draw(st.booleans())) else bare_vars)))))
             elif vtype == "int":
                 row.append(draw(int_expr(sub, 1)))
             elif vtype == "float":
@@ -783,7 +788,15 @@ def script(draw, cfg=Cfg()):
         elif k == "scalar":
             items.append(draw(scalar_decl(ctx, symbolic=symbolic if (cfg.sym_vars and cfg.sym_scalars) else None)))
         elif k == "array":
-            items.append(draw(array_decl(ctx, symbolic=symbolic if cfg.sym_vars else None)))
+            nm = None
+            if cfg.tdm and draw(st.booleans()):
+                # p-arrays and near misses of the p<digits> pattern
+                free = [n_ for n_ in ["p0", "p1", "p12", "p0_offset", "p12b", "p1a", "pa", "P0", "p_1"] if n_ not in ctx.used]
+                if free:
+                    nm = draw(st.sampled_from(free))
+            items.append(draw(array_decl(ctx, symbolic=symbolic if cfg.sym_vars else None, name=nm)))
+            if cfg.tdm and items[-1].name[0] == "p" and items[-1].name[1:].isdigit():
+                ctx.frozen.add(items[-1].name)     # a p-array must stay an array ("p0 must be an array")
         else:
             items.append(draw(for_loop(ctx, symbolic=arg_sym, max_mode=cfg.max_mode)))
     nloops = sum(isinstance(i, A.For) for i in items)
